@@ -652,6 +652,35 @@ pub fn exec(pool: &mut Pool, ev: &mut Value) {
             set(ev, "args", json!(args));
             set(ev, "out", json!(out));
         }
+        // position iterators of the big bit structures, started at base + rel
+        "ithbig" => {
+            let o = ev["o"].as_i64().unwrap();
+            let m = ev["m"].as_str().unwrap().to_string();
+            let rel = ev["rel"].as_i64().unwrap_or(0);
+            let cnt = ev["cnt"].as_u64().unwrap_or(3) as usize;
+            let mut out = vec![];
+            let mut start = json!([NA]);
+            if let (Some(x), Some(&base)) = (pool.objs.get(&o), pool.big.get(&o)) {
+                let pos = (base as i128 + rel as i128) as usize;
+                start = sym(pos as u128);
+                let ops = "n".repeat(cnt);
+                raw_clear();
+                let r = guard(|| x.iter_run(&m, pos, &ops)).unwrap_or(Some(vec![json!([PANIC])]));
+                let mut raws = raw_take().into_iter();
+                for v in r.unwrap_or_default() {
+                    // [0] = None, [1, value] = Some(value), [-2] = panic
+                    let a = v.as_array().cloned().unwrap_or_default();
+                    let code = a.first().and_then(|c| c.as_i64()).unwrap_or(NA);
+                    out.push(match (code, a.get(1).and_then(|c| c.as_i64())) {
+                        (1, Some(c)) => res_big(c, &mut raws),
+                        (0, _) => json!([NONE]),
+                        (c, _) => json!([c]),
+                    });
+                }
+            }
+            set(ev, "start", start);
+            set(ev, "out", json!(out));
+        }
         "metabig" => {
             let o = ev["o"].as_i64().unwrap();
             if let Some(x) = pool.objs.get(&o) {
